@@ -694,8 +694,8 @@ class List(list, base.Symbolic, pg_typing.CustomTyping):
       self.clear()
     else:
       items = list(self.sym_values())
-      for _ in range(n - 1):
-        self.extend(items)
+      # One `extend` call, thus one change event.
+      self.extend(items * (n - 1))
     return self
 
   def copy(self) -> 'List':
